@@ -46,6 +46,10 @@ const (
 	c13KnownID = "remove-foreign-position"
 )
 
+// c13NoWhiteBox (VERIF_C13_NOWHITEBOX=1) switches the vnode-count rule off; used
+// only to measure which mutants the black-box rules catch on their own.
+var c13NoWhiteBox = os.Getenv("VERIF_C13_NOWHITEBOX") != ""
+
 func init() {
 	// bin/check always points VERIF_KNOWN at /verif/known_findings.txt (which a
 	// harness builder must not edit). Until the finding of this check is
@@ -519,7 +523,7 @@ func c13Interp(c c13Case) (v kit.Verdict) {
 			}
 		}
 		// vnode-count (only where the constructor argument is the replica count itself)
-		if c.R < 0 || c.R >= 100 {
+		if (c.R < 0 || c.R >= 100) && !c13NoWhiteBox {
 			if foreign != 0 {
 				return v.Failf("%s: ring holds %d entries that are not nodes of this history", what, foreign)
 			}
@@ -634,7 +638,7 @@ func c13Gen(rt *rapid.T) c13Case {
 }
 
 func TestVerif_C13_history(t *testing.T) {
-	kit.Run(t, "C13", "history", kit.Opts{Quick: 4000, Thorough: 80000}, c13Gen, c13Interp)
+	kit.Run(t, "C13", "history", kit.Opts{Quick: 3000, Thorough: 80000}, c13Gen, c13Interp)
 }
 
 // ------------------------------------------------------------ balance rule
@@ -842,7 +846,7 @@ func c13BalGen(rt *rapid.T) c13Case {
 	c.NilFn = rapid.Bool().Draw(rt, "nilfn")
 	c.Style = rapid.IntRange(0, 2).Draw(rt, "style")
 	nn := rapid.IntRange(2, 5).Draw(rt, "nodes")
-	zero := rapid.IntRange(0, 2).Draw(rt, "zero") == 0  // an extra node with weight 0
+	zero := rapid.IntRange(0, 2).Draw(rt, "zero") == 0   // an extra node with weight 0
 	extra := rapid.IntRange(0, 1).Draw(rt, "extra") == 0 // an extra node that is removed again
 	total := nn
 	zi, xi := -1, -1
